@@ -1346,7 +1346,7 @@ class FlipLanesLoop(_Prim):
                 return Tensor(p.shape, lambda idx: z3.Select(outer.barr, idx[0]))
 
         self.pc = loops.pieces(adev._flip_lane_rb_estimate, 0)
-        if self.pc["n_loops"] != 1 or self.pc["targets"] != ["i"]:
+        if self.pc["n_loops"] != 1 or len(self.pc["targets"]) != 1:
             raise EngineLimit("lane loop restructured: %r loops, targets %r" % (self.pc["n_loops"], self.pc["targets"]))
         names = self.pc["locals"]
         for nm in ("kdual", "p_primal", "p_tangent"):
@@ -1375,7 +1375,8 @@ class FlipLanesLoop(_Prim):
             if case == "body":
                 self.i = fresh("lane", z3.IntSort())
                 eng.assume(z3.And(self.i >= 0, self.i < self.B))
-                locs = dict(locs, i=Sym(self.i))
+                locs = dict(locs)
+                locs[self.pc["targets"][0]] = Sym(self.i)  # the loop variable, whatever it is called
                 locs[self.acc] = Sym(self.PS(self.i))
                 return self.real(self.pc["body"], **locs)
             locs = dict(locs)
